@@ -36,7 +36,7 @@ impl Clone for BadClone {
     }
 }
 
-#[unimock(api=KMock, unmock_with=[_, _, _, real_r, _, _, _, _, _, _, _, _, _, _, _])]
+#[unimock(api=KMock, unmock_with=[_, _, _, real_r, _, _, _, _, _, _, _, _, _, _, _, _, _])]
 pub trait K: Sized {
     /// base expectation: exactly one m(0)
     fn m(&self, x: u8) -> u32;
@@ -56,6 +56,12 @@ pub trait K: Sized {
     fn ex(&self) -> u32;
     fn cu(&self) -> u32;
     fn nd(&self) -> u32;
+    /// ordered method whose matcher panics
+    fn po(&self, x: u8) -> u32;
+    /// provided method whose default body runs into a mock error (raised through the helper clone)
+    fn dflt(&self) -> u32 {
+        self.nm(0)
+    }
     /// by-value provided method: the original travels through the delegation helper
     fn consume(self, mode: u8) -> u32 {
         let v = self.m(0);
@@ -93,9 +99,15 @@ enum Origin {
     NoOutput,
     ByValueUser,
     ByValueMock,
+    /// user panic inside the matcher of an *ordered* pattern
+    MatcherOrdered,
+    /// mock error raised inside a default body (through the internal helper clone)
+    MockInDefaultBody,
+    /// a mock error raised through a clone is caught; afterwards the test body panics
+    CloneErrorThenUserPanic,
 }
 
-const ORIGINS: [Origin; 20] = [
+const ORIGINS: [Origin; 23] = [
     Origin::UserBefore,
     Origin::UserAfter,
     Origin::Matcher,
@@ -116,6 +128,9 @@ const ORIGINS: [Origin; 20] = [
     Origin::NoOutput,
     Origin::ByValueUser,
     Origin::ByValueMock,
+    Origin::MatcherOrdered,
+    Origin::MockInDefaultBody,
+    Origin::CloneErrorThenUserPanic,
 ];
 
 impl Origin {
@@ -131,6 +146,8 @@ impl Origin {
                 | Origin::ArgDebug
                 | Origin::RetClone
                 | Origin::ByValueUser
+                | Origin::MatcherOrdered
+                | Origin::CloneErrorThenUserPanic
         )
     }
     fn by_value(self) -> bool {
@@ -159,6 +176,9 @@ impl Origin {
             Origin::NoOutput => "No output available for after matching",
             Origin::ByValueUser => "INJECTED: by-value default body",
             Origin::ByValueMock => "No mock implementation found.",
+            Origin::MatcherOrdered => "INJECTED: ordered matcher",
+            Origin::MockInDefaultBody => "No mock implementation found.",
+            Origin::CloneErrorThenUserPanic => "INJECTED: after a caught clone error",
         }
     }
 }
@@ -207,8 +227,11 @@ fn applicable(o: Origin, t: Topo) -> bool {
         // the by-value method consumes the instance itself: only holders that can give it away
         return matches!(t, Topo::Plain | Topo::CloneOutlives | Topo::CloneParked | Topo::ForeignCreator);
     }
+    if o == Origin::CloneErrorThenUserPanic && matches!(t, Topo::OnWorkerThread | Topo::OriginalOnWorkerThread) {
+        return false;
+    }
     match t {
-        Topo::Caught => o.is_user() && o != Origin::UserBefore && o != Origin::UserAfter,
+        Topo::Caught => o.is_user() && !matches!(o, Origin::UserBefore | Origin::UserAfter | Origin::CloneErrorThenUserPanic),
         _ => true,
     }
 }
@@ -238,6 +261,9 @@ fn build(origin: Origin) -> Unimock {
         Origin::NoOutput => c.push(KMock::pm.stub(|each| {
             each.call(matching!(_));
         })),
+        Origin::MatcherOrdered => c.push(KMock::po.next_call(&|m| {
+            m.func(|_, _| panic!("INJECTED: ordered matcher"));
+        }).returns(7u32)),
         _ => {}
     }
     Unimock::new(c)
@@ -280,6 +306,15 @@ fn act(u: &Unimock, origin: Origin, met: bool) -> u32 {
         Origin::CannotUnmock => u.cu(),
         Origin::NoDefaultImpl => u.nd(),
         Origin::NoOutput => u.pm(0),
+        Origin::MatcherOrdered => u.po(0),
+        Origin::MockInDefaultBody => u.dflt(),
+        Origin::CloneErrorThenUserPanic => {
+            let c = u.clone();
+            let r = std::panic::catch_unwind(std::panic::AssertUnwindSafe(|| c.nm(0)));
+            assert!(r.is_err());
+            drop(c);
+            panic!("INJECTED: after a caught clone error");
+        }
         Origin::ByValueUser | Origin::ByValueMock => unreachable!(),
     }
 }
@@ -472,7 +507,7 @@ fn judge(origin: Origin, topo: Topo, met: bool, r: &CellResult) -> Result<(), St
                 return Err(format!("the mock did not answer after the caught panic: {}", r.stdout));
             }
             // verdict reflects the calls actually matched: user panics are not recorded
-            let never_called = matches!(origin, Origin::Matcher | Origin::ArgDebug);
+            let never_called = matches!(origin, Origin::Matcher | Origin::ArgDebug | Origin::MatcherOrdered);
             let verdict = r.stdout.lines().find(|l| l.starts_with("VERDICT:")).unwrap_or("");
             if never_called {
                 if !(verdict.starts_with("VERDICT: failed") && verdict.contains("was never called") && !verdict.contains("INJECTED")) {
@@ -526,14 +561,22 @@ fn judge(origin: Origin, topo: Topo, met: bool, r: &CellResult) -> Result<(), St
             if r.status != Some(101) {
                 return Err(format!("expected exit status 101 (the injected panic reaching main), got {:?}; stdout {}", r.status, r.stdout));
             }
-            if r.reports.len() != 1 {
-                return Err(format!("expected exactly one panic report, got {}: {:?}", r.reports.len(), r.reports));
+            let mut reports = r.reports.clone();
+            if origin == Origin::CloneErrorThenUserPanic {
+                // the caught mock error of the clone is reported by the panic hook first
+                if reports.is_empty() || !reports[0].contains("No mock implementation found.") {
+                    return Err(format!("expected the caught clone error to be reported first, got {:?}", reports));
+                }
+                reports.remove(0);
             }
-            if !r.reports[0].contains(origin.first_report()) {
-                return Err(format!("the report is not the injected panic ({:?}): {:?}", origin.first_report(), r.reports[0]));
+            if reports.len() != 1 {
+                return Err(format!("expected exactly one panic report, got {}: {:?}", reports.len(), reports));
             }
-            if origin.is_user() && TEARDOWN_SENTENCES.iter().any(|s| r.reports[0].contains(s)) {
-                return Err(format!("teardown's own panic surfaced: {:?}", r.reports[0]));
+            if !reports[0].contains(origin.first_report()) {
+                return Err(format!("the report is not the injected panic ({:?}): {:?}", origin.first_report(), reports[0]));
+            }
+            if origin.is_user() && TEARDOWN_SENTENCES.iter().any(|s| reports[0].contains(s)) {
+                return Err(format!("teardown's own panic surfaced: {:?}", reports[0]));
             }
             Ok(())
         }
@@ -620,7 +663,7 @@ fn main() {
         .set("distinct_nontrivial", distinct.len())
         .set(
             "rule",
-            "one child process per cell of {20 panic origins} x {12 instance topologies} x {base expectation met, unmet} (inapplicable combinations removed); a cell is non-trivial when a panic is injected while at least one Unimock instance is alive; distinct = distinct (origin, topology) pairs",
+            "one child process per cell of {23 panic origins} x {12 instance topologies} x {base expectation met, unmet} (inapplicable combinations removed); a cell is non-trivial when a panic is injected while at least one Unimock instance is alive; distinct = distinct (origin, topology) pairs",
         )
         .set("samples", J::Arr(sample.into_iter().collect()))
         .set("exhaustive", true)
